@@ -163,6 +163,9 @@ func U64Of(n string, key []byte) uint64 {
 	return 0
 }
 
+// Symbolic reports whether the harness runs under the symbolic executor.
+func Symbolic() bool { return false }
+
 // Param returns the bound to use in the current tier.
 func Param(n string, quick, thorough int) int {
 	load()
